@@ -101,11 +101,13 @@ def Img.at (img : Img) (x y : Nat) : C16 :=
 
 /-- The lower pixel of the cell whose upper pixel is `(x, y)`: `img.At(x, y+1)` as it comes (outside the image = zero
     colour), or — `FullBlockImage.Resize` since the F220 repair — the upper pixel again when the image has no row
-    `y+1` (last cell row of an odd pixel height). -/
+    `y+1` (last cell row of an odd pixel height), or — `HalfBlockImage.Resize` since the F320 repair — the zero colour
+    then (no read outside the bounds at all). -/
 def lowerPx (mode : Bottom) (img : Img) (x y : Nat) : C16 :=
   match mode with
   | .read => img.at x (y + 1)
   | .topIfMissing => if y + 1 < img.h then img.at x (y + 1) else img.at x y
+  | .zeroIfMissing => if y + 1 < img.h then img.at x (y + 1) else ⟨0, 0, 0, 0⟩
 
 /-- The cell list built by `Resize` from an image: `width = Max.X`, `height = ⌈Max.Y / 2⌉`, cell `i` covers
     pixels `(x, 2y)` and `(x, 2y+1)` with `y = i / width`, `x = i - y*width`. -/
@@ -121,6 +123,11 @@ def blockCellsWith (mode : Bottom) (cell : C16 → C16 → BCell) (img : Img) : 
 def blockCells (cell : C16 → C16 → BCell) (img : Img) : List (Nat × Nat × BCell) := blockCellsWith .read cell img
 
 def halfCells : Img → List (Nat × Nat × BCell) := blockCells halfCell
+/-- `HalfBlockImage.Resize` with the lower pixel read the way the source now reads it (`Gen.halfBlockBottom`; since the
+    F320 repair: the zero colour when the image has no row `y+1`, whatever the image type returns outside its bounds).
+    On this model's images — `Img.at` is the zero colour outside — it is `halfCells`
+    (`Props.C20Pixels.half_block_bottom_shape`). -/
+def halfCellsGen : Img → List (Nat × Nat × BCell) := blockCellsWith halfBlockBottom halfCell
 /-- `FullBlockImage.Resize`: how the lower pixel is read is regenerated from the source (`Gen.fullBlockBottom`). -/
 def fullCells : Img → List (Nat × Nat × BCell) := blockCellsWith fullBlockBottom fullCell
 
